@@ -36,12 +36,21 @@ var nontrivial = map[string]struct{}{}
 
 // bridge: RoundTripper that serves the request with the ingestion server's router
 type bridge struct {
-	router http.Handler
-	codes  []int
-	paths  []string
+	router   http.Handler
+	codes    []int
+	paths    []string
+	failNext int // answer the next n non-empty requests with 503 without showing them to the receiver
 }
 
 func (b *bridge) RoundTrip(req *http.Request) (*http.Response, error) {
+	if b.failNext > 0 && req.ContentLength > 0 && req.URL.Path == "/v2/event" {
+		b.failNext--
+		io.Copy(io.Discard, req.Body) // a real upstream reads the body before it answers
+		req.Body.Close()
+		b.codes = append(b.codes, 503)
+		b.paths = append(b.paths, req.URL.Path)
+		return &http.Response{StatusCode: 503, Status: "503", Header: http.Header{}, Body: io.NopCloser(strings.NewReader("busy")), Request: req}, nil
+	}
 	w := httptest.NewRecorder()
 	b.router.ServeHTTP(w, req)
 	b.codes = append(b.codes, w.Code)
@@ -266,6 +275,53 @@ func roundTrip(tc rtcase) {
 	nontrivial[want+fmt.Sprint(tc.Comp)] = struct{}{}
 }
 
+// retryCase: event A is refused once by the upstream, event B is sent while A waits for its retry, then
+// A is retried: the receiver must end up with exactly {A, B}.
+func retryCase(a, b *gostatsd.Event, c comp) {
+	res.Evaluations++
+	rec := &fx.Recorder{}
+	var cerr error
+	o := vsched.RunOnce(func() {
+		ctx, mock := fx.NewClock(context.Background())
+		clock.VerifDefault = vsched.EnvGet("clock").(clock.Clock)
+		h, br, err := newForwarder(c, rec)
+		cerr = err
+		if err != nil {
+			return
+		}
+		vsched.GoNamed("fwd.Run", func() { h.Run(ctx) })
+		vsched.Quiesce("up")
+		br.failNext = 1
+		ea, eb := *a, *b
+		h.DispatchEvent(ctx, &ea)
+		vsched.Quiesce("a-refused")
+		h.DispatchEvent(ctx, &eb)
+		vsched.Quiesce("b-sent")
+		vtime.Advance(mock, time.Second)
+		vsched.Quiesce("a-retried")
+		vtime.Advance(mock, time.Second)
+		h.WaitForEvents()
+	})
+	bad := func(kind, msg string) {
+		res.Violate(kind, fmt.Sprintf("%s: compression %+v events A=%+v B=%+v: %s", kind, c, *a, *b, msg), map[string]any{"a": a, "b": b, "comp": c})
+	}
+	if cerr != nil || o.Kind != "ok" {
+		bad("retry-run", fmt.Sprint(cerr, o.Kind, o.Detail))
+		return
+	}
+	var titles []string
+	for _, e := range rec.Events {
+		titles = append(titles, e.Title)
+	}
+	sort.Strings(titles)
+	want := []string{a.Title, b.Title}
+	sort.Strings(want)
+	if fmt.Sprint(titles) != fmt.Sprint(want) {
+		bad("retry-body-changed", fmt.Sprintf("after one refused attempt of A the receiver got events %q, want %q", titles, want))
+	}
+	nontrivial[fmt.Sprintf("retry%+v%+v%v", *a, *b, c)] = struct{}{}
+}
+
 func seriesMenu() []sd {
 	var out []sd
 	tagLists := []struct {
@@ -365,6 +421,19 @@ func runRoundtrip() {
 						roundTrip(rtcase{Series: []sd{menu[a], menu[b], menu[d]}, Comp: c})
 					}
 				}
+			}
+		}
+	}
+	// a retried body must still be the body it was (a refused attempt, another event in between)
+	long := &gostatsd.Event{Title: "event-A-with-a-long-title", Text: strings.Repeat("long text ", 20), Tags: gostatsd.Tags{"a:1", "b:2"}}
+	short := &gostatsd.Event{Title: "B", Text: "x"}
+	for _, c := range cs {
+		for _, pair := range [][2]*gostatsd.Event{{long, short}, {short, long}, {long, long}} {
+			i++
+			if vrt.Mine(i) {
+				pa, pb := *pair[0], *pair[1]
+				pb.Title += "'"
+				retryCase(&pa, &pb, c)
 			}
 		}
 	}
